@@ -56,6 +56,7 @@ var pureStd = map[string]bool{
 	"(io/fs.FileMode).IsDir": true, "(io/fs.FileMode).IsRegular": true, "(io/fs.FileMode).Type": true, "(io/fs.FileMode).Perm": true,
 	"(hash.Hash).Size": true, "(error).Error": true,
 	"path/filepath.Split": true, "path.Split": true, "(*os.File).Name": true,
+	"os.Getenv": true, // the process environment is fixed for the duration of one decision
 }
 
 type stdModel func(e *Exec, st *State, args []Val, x *ast.CallExpr) Val
@@ -486,10 +487,18 @@ func (e *Exec) conversion(st *State, v Val, t types.Type, pos token.Pos) Val {
 		e.sc.Assert(Eq(App(SInt, "str.len", r), SlcLen(v.T)))
 		return Val{T: r, GT: t}
 	case fs == SString && isSlcSort(ts):
+		if len(v.T.S) > 60 && e.binders == 0 {
+			nm := e.sc.Fresh("convstr", SString) // the axiom below uses the string in a quantifier pattern
+			e.sc.Assert(Eq(nm, v.T))
+			v.T = nm
+		}
 		fn := e.sc.Fun("str2bytes:"+ts, []string{SString}, ts)
 		r := T(ts, fmt.Sprintf("(%s %s)", fn, v.T.S))
 		e.sc.Assert(Eq(SlcLen(r), App(SInt, "str.len", v.T)))
 		e.sc.Assert(T(SBool, fmt.Sprintf("(forall ((i Int)) (! (=> (and (<= 0 i) (< i (str.len %s))) (= (select (slc_arr %s) i) (str.to_code (str.at %s i)))) :pattern ((select (slc_arr %s) i))))", v.T.S, r.S, v.T.S, r.S)))
+		// string([]byte(s)) == s
+		back := e.sc.Fun("bytes2str", []string{ts}, SString)
+		e.sc.Assert(Eq(App(SString, back, r), v.T))
 		return Val{T: r, GT: t}
 	case fs == SInt && ts == "Real":
 		return Val{T: App("Real", "to_real", v.T), GT: t}
